@@ -332,7 +332,7 @@ func (h *H) c35Data() []byte {
 
 func streamC35(h *H) {
 	defer feature.Flag.Apply("backend-error-redesign=true", func(string) {})
-	n := h.N(700, 30000)
+	n := h.N(2400, 60000)
 	maxLen := 4
 	if h.Thorough() {
 		maxLen = 7
@@ -360,14 +360,18 @@ func streamC35(h *H) {
 		}
 		h.Rec("init", init...)
 		nops := 2 + h.Intn(4)
+		again := -1
 		for o := 0; o < nops; o++ {
-			c35Op(h, m, be, redesign, maxLen)
+			again = c35Op(h, m, be, redesign, maxLen, again)
 		}
 		h.End()
 	}
 }
 
-func c35Op(h *H, m *c35Mock, be *retry.Backend, redesign bool, maxLen int) {
+// c35Op runs one operation; loadAgain >= 0 asks for another Load of that handle (so that the
+// circuit breaker armed by a failed Load is exercised). Returns the handle of a failed Load or -1.
+func c35Op(h *H, m *c35Mock, be *retry.Backend, redesign bool, maxLen int, loadAgain int) (failedLoad int) {
+	failedLoad = -1
 	hn := h.Intn(m.uni)
 	hd := backend.Handle{Type: backend.PackFile, Name: c35Name(hn)}
 	stop := "never"
@@ -390,7 +394,12 @@ func c35Op(h *H, m *c35Mock, be *retry.Backend, redesign bool, maxLen int) {
 	var err error
 	var toks []string
 	extra := func() {}
-	switch opk := h.Intn(10); {
+	opk := h.Intn(10)
+	if loadAgain >= 0 && h.Intn(3) != 0 {
+		opk, hn = 4, loadAgain
+		hd = backend.Handle{Type: backend.PackFile, Name: c35Name(hn)}
+	}
+	switch {
 	case opk < 4: // save
 		data := h.c35Data()
 		for j := 0; j < slen; j++ {
@@ -437,6 +446,9 @@ func c35Op(h *H, m *c35Mock, be *retry.Backend, redesign bool, maxLen int) {
 			}
 			return nil
 		})
+		if err != nil {
+			failedLoad = hn
+		}
 		extra = func() {
 			for _, d := range delivs {
 				h.Rec("deliv", Hex(d.data), B(d.complete))
@@ -499,4 +511,5 @@ func c35Op(h *H, m *c35Mock, be *retry.Backend, redesign bool, maxLen int) {
 	}
 	h.Rec("cells", cells...)
 	h.Rec("endop")
+	return failedLoad
 }
